@@ -30,6 +30,35 @@ func (fr *frame) call(instr *ssa.Call, c *ssa.CallCommon, st *State) Value {
 		args = append(args, fr.val(a))
 	}
 	targets, ext, dyn := fx.E.callTargets(c)
+	// obligations a depth guard attaches to every call that may lead back to it
+	if fr.contract != nil && fr.prefix == "" && len(fr.contract.AtCalls) > 0 {
+		comp := fx.E.recursiveComponent(fr.fn)
+		rec := false
+		for _, t := range targets {
+			if comp[t] {
+				rec = true
+			}
+		}
+		if rec {
+			ev := fr.env(st, fr.entry, nil)
+			ev.local = nil
+			for _, ac := range fr.contract.AtCalls {
+				if facetLevel[ac.Facet] != fr.level {
+					continue
+				}
+				t, err := ev.EvalBool(ac.E)
+				if err != nil {
+					fr.specError(ac, err)
+					continue
+				}
+				what := clauseName(ac)
+				if len(targets) > 0 {
+					what += "." + targets[0].Name()
+				}
+				fr.obligeSplit("atcall", what, t, pos, ac.Facet, ac.Tags)
+			}
+		}
+	}
 	if c.IsInvoke() {
 		recv := args[0]
 		fr.oblige("nil", exprName(c.Value)+"."+c.Method.Name(), Ne(recv.Tag, "0"), pos)
@@ -333,6 +362,10 @@ func (fr *frame) callContract(callee *ssa.Function, ct *Contract, args []Value, 
 			t, err := ev.EvalBool(c.E)
 			if err != nil {
 				fr.specError(c, fmt.Errorf("at call to %s: %v", name, err))
+				continue
+			}
+			if hasTag(c, "assumed") {
+				// assumption about the callee's pre-state that is not established by callers (listed in the evidence)
 				continue
 			}
 			if facetLevel[c.Facet] == fr.level {
